@@ -223,7 +223,7 @@ pub fn run_c13(cx: &Ctx) -> i32 {
         filter: Some(has_lb),
         shadow: false,
         alphabet: vec!['a', 'b', 'é', '€'],
-        max_len: 3, text_list: None, offset0_only: false, letter_names: false,
+        max_len: 3, text_list: None, offset0_only: false, letter_names: false, casei: false,
     };
     let t2 = refsweep::run(cx, &lb_space, &cfg);
     t.count("oracleC_programs", t2.programs);
